@@ -104,6 +104,7 @@ func (propC20) Draw(rt *rapid.T, w *WorldDesc, mode string) *Plan {
 		p.Ops = append(p.Ops, op)
 	}
 	p.Schedule = drawSchedule(rt, 48)
+	p.FreshMock = rapid.IntRange(0, 3).Draw(rt, "freshMock") == 0
 	return p
 }
 
